@@ -780,6 +780,7 @@ impl<E: Effect> Executor<E> {
             // Inject heap data into the result value
             let injected_result = self.inject_heap_data(result, &heap)?;
             self.retain(&injected_result);
+            self.mark_answered(awaiter, awaited);
             let previous = self
                 .get_process_mut(awaiter)
                 .unwrap()
@@ -813,10 +814,27 @@ impl<E: Effect> Executor<E> {
         if let Some(process) = self.get_process_mut(awaiter) {
             process.awaiting_failed.insert(awaited, error);
         }
+        self.mark_answered(awaiter, awaited);
 
         // Re-queue awaiter to retry its Select instruction
         if self.selecting.remove(&awaiter) {
             self.queue.push_back(awaiter);
+        }
+    }
+
+    /// Record that the worker of a process awaited by `awaiter`'s current select has answered
+    /// that the target has not finished yet (the awaiter is now registered there and will be told
+    /// when it does). The caller wakes the awaiter.
+    pub fn notify_pending(&mut self, awaiter: ProcessId, awaited: ProcessId) {
+        self.mark_answered(awaiter, awaited);
+    }
+
+    /// The await of `awaiter`'s current select has been answered for `awaited`.
+    fn mark_answered(&mut self, awaiter: ProcessId, awaited: ProcessId) {
+        if let Some(process) = self.get_process_mut(awaiter)
+            && let Some(state) = &mut process.select_state
+        {
+            state.unanswered.retain(|target| *target != awaited);
         }
     }
 
@@ -2288,6 +2306,7 @@ impl<E: Effect> Executor<E> {
             cursors: vec![0; receive_count],
             start_time,
             receiving: None,
+            unanswered: pid_targets.clone(),
         });
 
         // If we found PIDs, register awaits before processing sources
@@ -2689,6 +2708,19 @@ impl<E: Effect> Executor<E> {
             if !has_select_state {
                 return self.initialize_select(pid, current_time_ms);
             }
+        }
+
+        // A select with process sources evaluates nothing until every target has been answered.
+        // It can be woken before that - by a message, or by a late answer that concerns an
+        // earlier select - and a target that is still unknown here may well have finished: a
+        // later source must not win over it. The select stays parked; every answer wakes it.
+        let answers_pending = self
+            .get_process(pid)
+            .and_then(|p| p.select_state.as_ref())
+            .is_some_and(|state| !state.unanswered.is_empty());
+        if answers_pending {
+            self.mark_selecting(pid);
+            return Ok(None);
         }
 
         // Phase 3: Ensure start time is set (lazily after awaits complete)
@@ -3100,6 +3132,7 @@ mod heap_stats_tests {
             cursors: vec![],
             start_time: None,
             receiving: Some((0, bin(&in_receiving))),
+            unanswered: Vec::new(),
         });
         p.awaiting.insert(1, Some(bin(&in_awaiting)));
         ex.processes.insert(0, p);
